@@ -107,6 +107,8 @@ const (
 	BRcpOldestRegistersThenPanics
 	BRcpOldestRegistersThenSkips
 	BRcpOldestRegistersThenFatal
+	BFatalDeepA // Fatalf 42 frames below site A': a recursion deeper than any fixed traceback length
+	BFatalDeepB // the same 42 innermost frames, reached from site B'
 	numBeh
 )
 
@@ -121,7 +123,8 @@ var behNames = [...]string{"pass", "Skip", "Errorf", "Errorf;Skip", "Fail", "Fat
 	"Cleanup(Skip)+Cleanup(panic)", "Cleanup(Skip)+Cleanup(Fatalf)", "Cleanup(rejected-draw)+Cleanup(panic)", "Cleanup(panic)+Cleanup(Skip)", "Cleanup(Errorf)+Cleanup(Skip)",
 	"Cleanup(panic);Skip", "Cleanup(panic);rejected-draw", "Cleanup(nil-map-write);Skip",
 	"rcp:Context-only-inside-a-cleanup", "rcp:newer-cleanup-panics-then-older-one-asks-for-Context", "rcp:newer-cleanup-skips-then-older-one-asks-for-Context",
-	"rcp:oldest-cleanup-registers-another-then-panics", "rcp:oldest-cleanup-registers-another-then-skips", "rcp:oldest-cleanup-registers-another-then-Fatalf"}
+	"rcp:oldest-cleanup-registers-another-then-panics", "rcp:oldest-cleanup-registers-another-then-skips", "rcp:oldest-cleanup-registers-another-then-Fatalf",
+	"Fatalf@deep-A", "Fatalf@deep-B"}
 
 func (b Beh) String() string { return behNames[b] }
 
@@ -175,6 +178,10 @@ func (b Beh) Site() string {
 		return "F"
 	case BPanicStr, BPanicErr, BPanicStruct, BPanicNil:
 		return "P"
+	case BFatalDeepA:
+		return "deepA"
+	case BFatalDeepB:
+		return "deepB"
 	case BCleanupSkipThenFatal, BCleanupRejectThenFatal, BErrorfThenFatalA:
 		return "A"
 	case BCleanupSkipThenPanic, BCleanupRejectThenPanic:
@@ -203,6 +210,23 @@ func (e customErr) Error() string { return fmt.Sprintf("custom error %d", e.code
 //
 //go:noinline
 func siteA(t *rapid.T, msg string) { t.Fatalf("site A (100%%, %%d %%v): %s", msg) }
+
+// two sites that differ only in the frame below a 40-deep recursion
+//
+//go:noinline
+func deepSiteA(t *rapid.T, msg string) { deepRecurse(40, t, msg) }
+
+//go:noinline
+func deepSiteB(t *rapid.T, msg string) { deepRecurse(40, t, msg) }
+
+//go:noinline
+func deepRecurse(n int, t *rapid.T, msg string) {
+	if n == 0 {
+		t.Fatalf("deep site: %s", msg)
+		return
+	}
+	deepRecurse(n-1, t, msg)
+}
 
 //go:noinline
 func siteB(t *rapid.T, msg string) { t.Fatalf("site B: %s", msg) }
@@ -346,6 +370,10 @@ func Perform(t *rapid.T, b Beh, msg string) {
 	case BCleanupPanicCleanupSkip:
 		t.Cleanup(func() { sitePanic("boom in cleanup " + msg) })
 		t.Cleanup(func() { t.Skip("skip from the newer cleanup " + msg) })
+	case BFatalDeepA:
+		deepSiteA(t, msg)
+	case BFatalDeepB:
+		deepSiteB(t, msg)
 	case BErrorEmpty:
 		t.Error()
 	case BErrorfEmpty:
